@@ -69,6 +69,8 @@ class Lemma:
     hints: list[str] = dataclasses.field(default_factory=list)
     triggers: list[str] = dataclasses.field(default_factory=list)
     uses: list[str] = dataclasses.field(default_factory=list)
+    step: int = -1  # induction hypothesis at induct + step ...
+    decreases: str | None = None  # ... admissible because this measure is >= 0 and smaller there
 
 
 def cls(name, file, fields, mutable=(), bases=()):
@@ -136,8 +138,8 @@ def contract(
     return c
 
 
-def lemma(name, vars, requires=(), ensures=(), props=(), induct=None, hints=(), triggers=(), uses=()):
-    LEMMAS[name] = Lemma(name, dict(vars), list(requires), list(ensures), list(props), induct, list(hints), list(triggers), list(uses))
+def lemma(name, vars, requires=(), ensures=(), props=(), induct=None, hints=(), triggers=(), uses=(), step=-1, decreases=None):
+    LEMMAS[name] = Lemma(name, dict(vars), list(requires), list(ensures), list(props), induct, list(hints), list(triggers), list(uses), step, decreases)
 
 
 def reset():
